@@ -460,9 +460,10 @@ func (vm *VM) appendSlice(first int8, length int, slice reflect.Value) reflect.V
 				slice.Index(j).SetString(regs[i])
 			}
 		default:
-			regs := vm.regs.general[vm.fp[3]+Addr(first):]
+			// A function is stored as a Go function and a nil interface as
+			// the zero value of the element type.
 			for i, j := 0, ol; i < length; i, j = i+1, j+1 {
-				slice.Index(j).Set(regs[i])
+				vm.getIntoReflectValue(first+int8(i), slice.Index(j), false)
 			}
 		}
 		return slice
